@@ -199,6 +199,22 @@ class DPathB(cohdl.Entity):
         DGate(a=t, o=self.o)
 
 
+def make_same_name(inc):
+    class SameName(cohdl.Entity):
+        a = Port.input(Unsigned[3])
+        o = Port.output(Unsigned[3])
+
+        def architecture(self):
+            @std.concurrent
+            def logic():
+                self.o <<= self.a + inc
+
+    return SameName
+
+
+SameNameA, SameNameB = make_same_name(1), make_same_name(2)
+
+
 class Mid(cohdl.Entity):
     clk = Port.input(Bit)
     a = Port.input(Unsigned[3])
@@ -287,6 +303,16 @@ TREES = [
       "@std.concurrent", "def l():", "    LeafComb(a=self.x, b=self.y + 1, o=su[2:0])", "    self.o1 <<= su[2:0]", "    self.ob <<= sb[2:1]"],
      ["@std.concurrent", "def l():", "    self.o1 <<= f_comb(self.x, self.y + 1)", "    self.o2 <<= f_mix(f_comb(self.x, self.y + 1), self.x)", "    self.ob <<= f_bits(self.v[2:1])"],
      {"LeafComb", "LeafMix", "LeafBits"}),
+    ("slice-of-expression-actuals", False,
+     ["su = Signal[Unsigned[3]](name='su')", "@std.concurrent", "def l():", "    LeafBits(x=(self.v ^ (self.v[0] @ self.v[3:1]))[2:1], o=self.ob)",
+      "    LeafComb(a=(self.x + self.y)[2:0].unsigned, b=self.y, o=su)", "    LeafMix(a=su, b=(self.x & self.y), o=self.o2)", "    self.o1 <<= su"],
+     ["@std.concurrent", "def l():", "    self.ob <<= f_bits((self.v ^ (self.v[0] @ self.v[3:1]))[2:1])", "    self.o1 <<= f_comb((self.x + self.y)[2:0].unsigned, self.y)",
+      "    self.o2 <<= f_mix(f_comb((self.x + self.y)[2:0].unsigned, self.y), (self.x & self.y))"],
+     {"LeafComb", "LeafMix", "LeafBits"}),
+    ("two-templates-with-one-name", False,
+     ["SameNameA(a=self.x, o=self.o1)", "SameNameB(a=self.x, o=self.o2)", "LeafBits(x=self.v[1:0], o=self.ob)"],
+     ["@std.concurrent", "def l():", "    self.o1 <<= self.x + 1", "    self.o2 <<= self.x + 2", "    self.ob <<= f_bits(self.v[1:0])"],
+     None),
     ("port-default-and-reset", True,
      ["LeafInit(clk=self.clk, reset=self.en, o=self.o1)", "LeafInit(clk=self.clk, reset=self.v[1], o=self.o2)", "LeafBits(x=self.v[3:2], o=self.ob)"],
      ["r1 = Signal[Unsigned[3]](5, name='r1')", "r2 = Signal[Unsigned[3]](5, name='r2')",
@@ -469,6 +495,9 @@ def run(tier: str) -> int:
             th, eh = compile_design(wd, design("Top", hier), "Top", "c12h")
             tf, ef = compile_design(wd, design("Top", flat), "Top", "c12f")
             rep.stats.programs += 2
+            if th is None and templates is None:
+                counts["rejected"] = counts.get("rejected", 0) + 1  # a design cohdl may refuse (two templates of one name)
+                continue
             if th is None or tf is None:
                 which = "hierarchical" if th is None else "inlined"
                 rep.violation(f"rejected|{key}|{which}", f"{key}: {which} design rejected: {eh or ef}", {"hier": design('Top', hier), "flat": design('Top', flat)})
@@ -497,7 +526,7 @@ def run(tier: str) -> int:
                     if pos.get(inst.entity.lower(), -1) >= pos[d.name.lower()]:
                         rep.violation(f"unit-order|{key}", f"{key}: unit {d.name} is emitted before {inst.entity}, which it instantiates (order {[x.name for x in lib_h.order]})", {"vhdl": th})
             units = [d.name for d in lib_h.order]
-            if len(units) != len(set(u.lower() for u in units)) or set(units) - {"Top"} != templates or units[-1] != "Top":
+            if len(units) != len(set(u.lower() for u in units)) or (templates is not None and set(units) - {"Top"} != templates) or units[-1] != "Top":
                 rep.violation(f"units|{key}", f"{key}: emitted units {units}, expected one unit per template {sorted(templates)} followed by Top", {"vhdl": th})
             status, info = compare(rep.stats, lib_h, lib_f, seq, K)
             counts[status] = counts.get(status, 0) + 1
